@@ -228,10 +228,10 @@ structure GoodE (env : Env ν) (row : Row ν) (e : Expr) (v : Value ν) : Prop w
   bmode : boolShaped e = true → isTruth v = true → ev env row e .b = .val (.bool v.isTrue) false
 
 def Good (env : Env ν) (row : Row ν) (e : Expr) : Prop :=
-  (∀ v, sqlEval env row e .e = .ok v → shapeOK e .e = true → handParses e = true → GoodE env row e v)
-  ∧ (∀ v, sqlEval env row e .chS = .ok v → shapeOK e .chS = true → handParses e = true →
+  (∀ v, sqlEval env row e .e = .ok v → shapeOK e .e = true → notKnown env row e = true → GoodE env row e v)
+  ∧ (∀ v, sqlEval env row e .chS = .ok v → shapeOK e .chS = true → notKnown env row e = true →
       agrees v (ev env row e .chS) ∧ (boolTyped e = false → ev env row e .chS = valueRes v))
-  ∧ (∀ sv v, sqlEval env row e (.chV sv) = .ok v → shapeOK e .chV = true → handParses e = true →
+  ∧ (∀ sv v, sqlEval env row e (.chV sv) = .ok v → shapeOK e .chV = true → notKnown env row e = true →
       agrees v (ev env row e (.chV sv sv.isNull)) ∧
         (boolTyped e = false → ev env row e (.chV sv sv.isNull) = valueRes v))
 
@@ -270,7 +270,7 @@ theorem good_all [Num01 ν] (env : Env ν) (row : Row ν) : ∀ e, Good env row 
   | paren e ih =>
     refine ⟨?_, ?_, ?_⟩
     · intro v h hs hp
-      simp only [sqlEval] at h; simp only [shapeOK] at hs; simp only [handParses] at hp
+      simp only [sqlEval] at h; simp only [shapeOK] at hs; simp only [notKnown] at hp
       have g := ih.1 v h hs hp
       exact ⟨by simpa [ev] using g.ag, by simpa [ev, boolTyped] using g.exact,
         by simpa [ev, boolShaped] using g.bmode⟩
@@ -283,7 +283,7 @@ theorem good_all [Num01 ν] (env : Env ν) (row : Row ν) : ∀ e, Good env row 
       obtain ⟨x, y, hx, hy, hf⟩ := bind2_ok h
       cases hx
       simp only [shapeOK, Bool.and_eq_true, Bool.not_eq_true'] at hs
-      simp only [handParses] at hp
+      simp only [notKnown] at hp
       have g := ih.1 y hy hs.1 hp
       have he := g.exact hs.2
       refine goodE_of_exact ?_ (by simp [boolShaped])
@@ -298,7 +298,7 @@ theorem good_all [Num01 ν] (env : Env ν) (row : Row ν) : ∀ e, Good env row 
       simp only [sqlEval] at h
       obtain ⟨x, y, hx, hy, hf⟩ := bind2_ok h
       simp only [shapeOK, Bool.and_eq_true, Bool.not_eq_true'] at hs
-      simp only [handParses, Bool.and_eq_true] at hp
+      simp only [notKnown, Bool.and_eq_true] at hp
       have gl := (ihl.1 x hx hs.1.1.1 hp.1).exact hs.1.2
       have gr := (ihr.1 y hy hs.1.1.2 hp.2).exact hs.2
       refine goodE_of_exact ?_ (by simp [boolShaped])
@@ -312,7 +312,7 @@ theorem good_all [Num01 ν] (env : Env ν) (row : Row ν) : ∀ e, Good env row 
       simp only [sqlEval] at h
       obtain ⟨x, y, hx, hy, hf⟩ := bind2_ok h
       simp only [shapeOK, Bool.and_eq_true, Bool.not_eq_true'] at hs
-      simp only [handParses, Bool.and_eq_true] at hp
+      simp only [notKnown, Bool.and_eq_true] at hp
       have gl := (ihl.1 x hx hs.1.1.1 hp.1).exact hs.1.2
       have gr := (ihr.1 y hy hs.1.1.2 hp.2).exact hs.2
       obtain ⟨hc, ht⟩ := cmpStep_sql env op x y v hf
@@ -329,7 +329,7 @@ theorem good_all [Num01 ν] (env : Env ν) (row : Row ν) : ∀ e, Good env row 
       simp only [sqlEval] at h
       obtain ⟨x, y, hx, hy, hf⟩ := bind2_ok h
       simp only [shapeOK, Bool.and_eq_true] at hs
-      simp only [handParses, Bool.and_eq_true] at hp
+      simp only [notKnown, Bool.and_eq_true] at hp
       obtain ⟨hc, htx, hty, ht⟩ := andStep_sql x y v hf
       have gl := (ihl.1 x hx hs.1.1.1 hp.1).bmode hs.1.2 htx
       have gr := (ihr.1 y hy hs.1.1.2 hp.2).bmode hs.2 hty
@@ -346,7 +346,7 @@ theorem good_all [Num01 ν] (env : Env ν) (row : Row ν) : ∀ e, Good env row 
       simp only [sqlEval] at h
       obtain ⟨x, y, hx, hy, hf⟩ := bind2_ok h
       simp only [shapeOK, Bool.and_eq_true] at hs
-      simp only [handParses, Bool.and_eq_true] at hp
+      simp only [notKnown, Bool.and_eq_true] at hp
       obtain ⟨hc, htx, hty, ht⟩ := orStep_sql x y v hf
       have gl := (ihl.1 x hx hs.1.1.1 hp.1).bmode hs.1.2 htx
       have gr := (ihr.1 y hy hs.1.1.2 hp.2).bmode hs.2 hty
@@ -357,15 +357,36 @@ theorem good_all [Num01 ν] (env : Env ν) (row : Row ν) : ∀ e, Good env row 
       exact ⟨by rw [hw]; exact agrees_truth v ht, by simp [boolTyped], fun _ _ => hb⟩
     · intro v _ hs; simp [shapeOK] at hs
     · intro sv v _ hs; simp [shapeOK] at hs
-  | not e _ =>
+  | not e ih =>
     refine ⟨?_, ?_, ?_⟩
-    · intro v _ _ hp; simp [handParses] at hp
+    · intro v h hs hp
+      simp only [sqlEval] at h
+      simp only [shapeOK, Bool.and_eq_true] at hs
+      simp only [notKnown, Bool.and_eq_true, nonNull] at hp
+      cases hx : sqlEval env row e .e with
+      | bad w => simp [hx] at h
+      | ok x =>
+        simp only [hx] at h
+        rw [hx] at hp
+        cases x with
+        | null => simp at hp
+        | num _ => simp [sqlNot] at h
+        | str _ => simp [sqlNot] at h
+        | bool b =>
+          simp [sqlNot] at h; subst h
+          have gb := (ih.1 (.bool b) hx hs.1 hp.1).bmode hs.2 (by simp [isTruth])
+          have hw : ev env row (.not e) .w = .val (.bool (!b)) false := by
+            simp only [ev, gb]; cases b <;> simp [notStep, Value.isTrue]
+          have hb : ev env row (.not e) .b = .val (.bool (!b)) false := by
+            simp only [ev, gb]; cases b <;> simp [notStep, Value.isTrue]
+          refine ⟨Or.inl (by rw [hw]; simp [valueRes, Value.isNull]), by simp [boolTyped], fun _ _ => ?_⟩
+          rw [hb]; cases b <;> simp [Value.isTrue]
     · intro v _ hs; simp [shapeOK] at hs
     · intro sv v _ hs; simp [shapeOK] at hs
   | caseS ch ih =>
     refine ⟨?_, ?_, ?_⟩
     · intro v h hs hp
-      simp only [sqlEval] at h; simp only [shapeOK] at hs; simp only [handParses] at hp
+      simp only [sqlEval] at h; simp only [shapeOK] at hs; simp only [notKnown] at hp
       obtain ⟨ha, he⟩ := ih.2.1 v h hs hp
       exact ⟨by simpa [ev] using ha, by simpa [ev, boolTyped] using he, by simp [boolShaped]⟩
     · intro v _ hs; simp [shapeOK] at hs
@@ -375,7 +396,7 @@ theorem good_all [Num01 ν] (env : Env ν) (row : Row ν) : ∀ e, Good env row 
     · intro v h hs hp
       simp only [sqlEval] at h
       simp only [shapeOK, Bool.and_eq_true, Bool.not_eq_true'] at hs
-      simp only [handParses, Bool.and_eq_true] at hp
+      simp only [notKnown, Bool.and_eq_true] at hp
       cases hsc : sqlEval env row sc .e with
       | bad w => simp [hsc] at h
       | ok sv =>
@@ -392,7 +413,7 @@ theorem good_all [Num01 ν] (env : Env ν) (row : Row ν) : ∀ e, Good env row 
     · intro v _ hs; simp [shapeOK] at hs
     · intro v h hs hp
       simp only [shapeOK, Bool.and_eq_true] at hs
-      simp only [handParses, Bool.and_eq_true] at hp
+      simp only [notKnown, Bool.and_eq_true] at hp
       simp only [sqlEval] at h
       cases hc : sqlEval env row c .e with
       | bad w => simp [hc] at h
@@ -435,7 +456,7 @@ theorem good_all [Num01 ν] (env : Env ν) (row : Row ν) : ∀ e, Good env row 
         | str s => simp at h
     · intro sv v h hs hp
       simp only [shapeOK, Bool.and_eq_true, Bool.not_eq_true'] at hs
-      simp only [handParses, Bool.and_eq_true] at hp
+      simp only [notKnown, Bool.and_eq_true] at hp
       simp only [sqlEval] at h
       cases hc : sqlEval env row c .e with
       | bad w => simp [hc] at h
@@ -476,11 +497,11 @@ theorem good_all [Num01 ν] (env : Env ν) (row : Row ν) : ∀ e, Good env row 
     refine ⟨?_, ?_, ?_⟩
     · intro v _ hs; simp [shapeOK] at hs
     · intro v h hs hp
-      simp only [sqlEval] at h; simp only [shapeOK] at hs; simp only [handParses] at hp
+      simp only [sqlEval] at h; simp only [shapeOK] at hs; simp only [notKnown] at hp
       have g := ih.1 v h hs hp
       exact ⟨by simpa [ev] using g.ag, by simpa [ev, boolTyped] using g.exact⟩
     · intro sv v h hs hp
-      simp only [sqlEval] at h; simp only [shapeOK] at hs; simp only [handParses] at hp
+      simp only [sqlEval] at h; simp only [shapeOK] at hs; simp only [notKnown] at hp
       have g := ih.1 v h hs hp
       exact ⟨by simpa [ev] using g.ag, by simpa [ev, boolTyped] using g.exact⟩
   | endL =>
@@ -497,7 +518,7 @@ theorem good_all [Num01 ν] (env : Env ν) (row : Row ν) : ∀ e, Good env row 
     · intro v h hs hp
       simp only [sqlEval] at h
       simp only [shapeOK, Bool.and_eq_true, Bool.not_eq_true'] at hs
-      simp only [handParses] at hp
+      simp only [notKnown] at hp
       cases hx : sqlEval env row a .e with
       | bad w => simp [hx] at h
       | ok x =>
@@ -518,7 +539,7 @@ theorem good_all [Num01 ν] (env : Env ν) (row : Row ν) : ∀ e, Good env row 
     · intro v h hs hp
       simp only [sqlEval] at h
       simp only [shapeOK, Bool.and_eq_true, Bool.not_eq_true'] at hs
-      simp only [handParses, Bool.and_eq_true] at hp
+      simp only [notKnown, Bool.and_eq_true] at hp
       cases hx : sqlEval env row a .e with
       | bad w => simp [hx] at h
       | ok x =>
@@ -543,7 +564,7 @@ theorem good_all [Num01 ν] (env : Env ν) (row : Row ν) : ∀ e, Good env row 
     · intro v h hs hp
       simp only [sqlEval] at h
       simp only [shapeOK, Bool.and_eq_true, Bool.not_eq_true'] at hs
-      simp only [handParses, Bool.and_eq_true] at hp
+      simp only [notKnown, Bool.and_eq_true] at hp
       cases hx : sqlEval env row a .e with
       | bad w => simp [hx] at h
       | ok x =>
